@@ -4,6 +4,7 @@ import MesonModel.Rewrite.Parse
 import MesonModel.Rewrite.Compare
 import MesonModel.Rewrite.ListEdit
 import MesonModel.Rewrite.PathMatch
+import MesonModel.Rewrite.Script
 /-
 C17 — rewriter edits are local and keep everything else meaning the same (theorems over the model).
 
@@ -221,6 +222,25 @@ theorem defaultOptions_set_shape (kvs : List (List Char × List Char)) (l : List
 example : defaultOptionsDelete ["debug".toList] ["b_ndebug=if-release".toList, "debug=true".toList, "c_args=-Ddebug=1".toList,
     "sub:debug=true".toList, "debug".toList] = ["b_ndebug=if-release".toList, "c_args=-Ddebug=1".toList, "sub:debug=true".toList, "debug".toList] := by
   decide
+
+/-! ### script mode = one invocation per command -/
+
+/-- a script (`meson rewrite command '[c1, c2, …]'`) ends in the same files, and fails at the same command, as one
+`meson rewrite` invocation per command — because `run()` re-analyses the files it has just written before the next
+command, whatever that command did (for every analysis, every command semantics, every file tree, every script) -/
+theorem script_eq_separate_invocations {σ ι κ : Type} (analyze : σ → ι) (step : ι → κ → σ → Option σ)
+    (s : σ) (cmds : List κ) : runScript analyze step s cmds = runSeparate analyze step s cmds :=
+  runLoop_eq_separate analyze step cmds s
+
+/-- without the re-analysis after an appending command the equality fails: `[target_add 1, use 1]` aborts with the
+target unknown (the file already holds it), and `[target_add 1, target_add 1]` is no longer refused -/
+theorem script_without_reanalysis_counterexample :
+    runSeparate id toyStep [] [.add 1, .use 1] = ([1], true) ∧
+    runLoopStale id toyStep toySkip [] [] [.add 1, .use 1] = ([1], false) ∧
+    runSeparate id toyStep [] [.add 1, .add 1] = ([1], false) ∧
+    runLoopStale id toyStep toySkip [] [] [.add 1, .add 1] = ([1, 1], true) := by decide
+
+example : runScript id toyStep [] [.add 1, .use 1, .add 1] = ([1], false) := by decide
 
 /-! ### which source string a removal takes -/
 
